@@ -41,7 +41,6 @@ package executor
 // Receipt merging happens only after both checks passed.
 //@ func (*executor).execTxOne [C12]
 //@   opt safety=assumed overflow=assumed
-//@   requires feelog != nil && tx != nil
 //@   ensures result1 == nil ==> ret1(Exec) == nil
 //@   ensures result1 == nil ==> called(checkKV) && ret(checkKV) == nil
 //@   ensures result1 == nil ==> called(checkKeyAllow) && ret1(checkKeyAllow) == nil
@@ -246,3 +245,77 @@ package executor
 //@ func (*LocalDB).begin [C11]
 //@   opt safety=assumed panics=allowed
 //@   frame nothing
+
+// ---- C11: the execute / commit-or-rollback protocol ------------------------------------------------
+//@ pure func github.com/33cn/chain33/client/api.IsAPIEnvError
+// the two databases do not reach back into the executor object
+//@ trusted func (github.com/33cn/chain33/common/db.KV).Begin
+//@   frame ~executor.stateDB, ~executor.localDB, ~executor.height, ~executor.cfg, ~mem:*github.com/33cn/chain33/types.Transaction
+//@ trusted func (github.com/33cn/chain33/common/db.KV).Commit
+//@   frame ~executor.stateDB, ~executor.localDB, ~executor.height, ~executor.cfg, ~mem:*github.com/33cn/chain33/types.Transaction
+//@ trusted func (github.com/33cn/chain33/common/db.KV).Rollback
+//@   frame ~executor.stateDB, ~executor.localDB, ~executor.height, ~executor.cfg, ~mem:*github.com/33cn/chain33/types.Transaction
+//@ trusted func (github.com/33cn/chain33/common/db.KVDB).Begin
+//@   frame ~executor.stateDB, ~executor.localDB, ~executor.height, ~executor.cfg, ~mem:*github.com/33cn/chain33/types.Transaction
+//@ trusted func (github.com/33cn/chain33/common/db.KVDB).Commit
+//@   frame ~executor.stateDB, ~executor.localDB, ~executor.height, ~executor.cfg, ~mem:*github.com/33cn/chain33/types.Transaction
+//@ trusted func (github.com/33cn/chain33/common/db.KVDB).Rollback
+//@   frame ~executor.stateDB, ~executor.localDB, ~executor.height, ~executor.cfg, ~mem:*github.com/33cn/chain33/types.Transaction
+//@ func (*executor).begin [C11]
+//@   opt safety=assumed
+//@   frame ~executor.stateDB, ~executor.localDB, ~executor.height, ~executor.cfg, ~mem:*github.com/33cn/chain33/types.Transaction
+//@   ensures ret(IsFork) && old(e.stateDB) != nil ==> called(Begin, 0)
+//@   ensures ret(IsFork) && old(e.localDB) != nil ==> called(Begin, 1)
+//@   assert@call IsFork: arg1 == e.height && arg2 == "ForkExecRollback"
+//@ func (*executor).rollback [C11]
+//@   opt safety=assumed
+//@   frame ~executor.stateDB, ~executor.localDB, ~executor.height, ~executor.cfg, ~mem:*github.com/33cn/chain33/types.Transaction
+//@   ensures ret(IsFork) && old(e.stateDB) != nil ==> called(Rollback, 0)
+//@   ensures ret(IsFork) && old(e.localDB) != nil ==> called(Rollback, 1)
+//@   assert@call IsFork: arg1 == e.height && arg2 == "ForkExecRollback"
+//@ func (*executor).commit [C11]
+//@   opt safety=assumed
+//@   frame ~executor.stateDB, ~executor.localDB, ~executor.height, ~executor.cfg, ~mem:*github.com/33cn/chain33/types.Transaction
+//@   ensures result == nil && ret(IsFork) && old(e.stateDB) != nil ==> called(Commit, 0) && ret(Commit, 0) == nil
+//@   ensures result == nil && ret(IsFork) && old(e.localDB) != nil ==> called(Commit, 1) && ret(Commit, 1) == nil
+//@   assert@call IsFork: arg1 == e.height && arg2 == "ForkExecRollback"
+
+// a single transaction: executed between begin and exactly one of commit (success) / rollback (failure)
+//@ func (*executor).processFee [C11]
+//@   opt safety=assumed overflow=assumed panics=allowed
+//@   ensures result1 == nil ==> result0 != nil
+//@ func (*executor).cutFeeReceipt [C11]
+//@   opt safety=assumed
+//@   ensures result != nil
+//@ func (*executor).execFee [C11]
+//@   opt safety=assumed panics=allowed
+//@   ensures result1 == nil ==> result0 != nil
+//@ func (*executor).proxyExecTx [C11]
+//@   opt safety=assumed panics=allowed
+//@   ensures result1 == nil ==> result0 != nil
+//@ func (*executor).proxyGetRealTx [C11]
+//@   opt safety=assumed panics=allowed
+//@   ensures result1 == nil ==> result0 != nil
+//@ func (*executor).execTx [C11]
+//@   opt safety=assumed panics=allowed
+//@   requires tx != nil
+//@   assert@call execTxOne: called(begin) && !called(commit) && !called(rollback)
+//@   ensures called(execTxOne) && ret1(execTxOne) != nil ==> called(rollback) && !called(commit)
+//@   ensures called(execTxOne) && ret1(execTxOne) == nil ==> called(commit) && !called(rollback)
+//@   ensures result1 == nil && old(e.height) != 0 ==> called(execTxOne)
+
+// a group: all members between one begin and one commit; the first failure rolls everything back
+//@ func (*executor).execTxGroup [C11]
+//@   opt safety=assumed panics=allowed overflow=assumed
+//@   requires len(txs) >= 2 && forall i :: 0 <= i && i < len(txs) ==> txs[i] != nil
+//@   assert@call execTxOne#0: called(begin) && !called(commit) && !called(rollback)
+//@   assert@call execTxOne#1: called(begin) && !called(commit) && !called(rollback) && ret1(execTxOne, 0) == nil
+//@   assert@call commit: !called(rollback) && ret1(execTxOne, 0) == nil && (called(execTxOne, 1) ==> ret1(execTxOne, 1) == nil)
+//@   ensures result1 == nil && called(execTxOne, 1) && ret1(execTxOne, 1) != nil ==> called(rollback) && !called(commit)
+//@   ensures result1 == nil && called(execTxOne, 0) && ret1(execTxOne, 0) != nil && ret(IsFork, 0) ==> called(rollback) && !called(commit)
+//@   ensures result1 == nil && called(execTxOne, 0) && ret1(execTxOne, 0) != nil ==> !called(commit)
+//@   ensures result1 == nil ==> called(execTxOne, 0) && (called(commit) || called(rollback) || !ret(IsFork, 0))
+//@   loop 0 invariant true
+//@   loop 1 invariant !called(commit) && !called(rollback) && called(begin) && ret1(execTxOne, 0) == nil
+//@   loop 1 invariant called(execTxOne, 1) ==> ret1(execTxOne, 1) == nil
+//@   loop 2 invariant true
